@@ -1,9 +1,22 @@
-"""Executable models of stdlib C types / functions that may receive a proxy.
-(filled in incrementally; anything not modelled here makes a path inconclusive)"""
-from .core import Unsupported
+"""Executable models of stdlib C types / functions that may receive a proxy:
+datetime.date/time/datetime/timedelta, pytz.FixedOffset, time.strptime('%Y-%m-%d'),
+decimal.Decimal (construction from text, __str__, comparison), float(text) kernels.
+
+Written from the CPython documentation / _pydatetime / _pydecimal.  Every explored path's
+witness is replayed on the real C implementations by the runner, so a wrong model shows
+up as a model mismatch, never as a silent pass."""
+import re
+import time as _time
+import decimal
+import datetime as _dt
+import z3
+
+from .core import (E, Sym, SBool, SInt, Unsupported, PathAbort, BoundExceeded, zint, zb, zbool,
+                   concretize, model_int)
+from .strs import (CStr, render_int, render_int_padded, parse_int, digits_val, re_match, _cz)
 
 NO_MODEL = object()
-_DISPATCH = []      # list of callables (f, slf, args, kw) -> value | NO_MODEL
+_DISPATCH = []
 
 
 def register(fn):
@@ -19,9 +32,873 @@ def dispatch(f, slf, args, kw):
     return NO_MODEL
 
 
+def _I(x):
+    """int-like -> z3 Int term"""
+    return zint(x)
+
+
+def _sym(x):
+    return isinstance(x, Sym)
+
+
+def _req_int(x, what):
+    if isinstance(x, SInt):
+        if x.is_float:
+            raise TypeError("'float' object cannot be interpreted as an integer")
+        return x
+    if isinstance(x, SBool):
+        return SInt(z3.If(x.z, 1, 0))
+    if isinstance(x, bool):
+        return int(x)
+    if isinstance(x, int):
+        return x
+    if isinstance(x, CStr) or isinstance(x, (str, bytes, float)) or x is None:
+        raise TypeError("'%s' object cannot be interpreted as an integer (%s)" % (type(x).__name__, what))
+    raise Unsupported('date/time field of type %r' % (type(x),))
+
+
+def _check(cond, exc):
+    """cond: z3 Bool or python bool.  Raises exc on the negative branch."""
+    if not E.branch(zbool(cond)) if not isinstance(cond, bool) else not cond:
+        raise exc
+
+
+def _is_leap(y):
+    return z3.And(y % 4 == 0, z3.Or(y % 100 != 0, y % 400 == 0))
+
+
+_DIM = [31, 28, 31, 30, 31, 30, 31, 31, 30, 31, 30, 31]
+_DBM = [0]
+for _d in _DIM[:-1]:
+    _DBM.append(_DBM[-1] + _d)
+
+
+def _days_in_month(y, m):
+    e = z3.IntVal(31)
+    for i in range(11, 0, -1):
+        d = _DIM[i - 1]
+        if i == 2:
+            v = z3.If(_is_leap(y), 29, 28)
+        else:
+            v = z3.IntVal(d)
+        e = z3.If(m == i, v, e)
+    return e
+
+
+def _days_before_month(y, m):
+    e = z3.IntVal(_DBM[11])
+    for i in range(11, 0, -1):
+        e = z3.If(m == i, z3.IntVal(_DBM[i - 1]), e)
+    return e + z3.If(z3.And(m > 2, _is_leap(y)), 1, 0)
+
+
+def _ymd2ord(y, m, d):
+    y1 = y - 1
+    return y1 * 365 + y1 / 4 - y1 / 100 + y1 / 400 + _days_before_month(y, m) + d
+
+
+def _pad(x, w):
+    return render_int_padded(x if isinstance(x, SInt) else int(x), w) if isinstance(x, SInt) \
+        else CStr.of('%0*d' % (w, x))
+
+
+def _valid_date(y, m, d):
+    y, m, d = _req_int(y, 'year'), _req_int(m, 'month'), _req_int(d, 'day')
+    zy, zm, zd = _I(y), _I(m), _I(d)
+    _check(z3.And(zy >= 1, zy <= 9999), ValueError('year is out of range'))
+    _check(z3.And(zm >= 1, zm <= 12), ValueError('month must be in 1..12'))
+    _check(z3.And(zd >= 1, zd <= _days_in_month(zy, zm)), ValueError('day is out of range for month'))
+    return y, m, d
+
+
+def _valid_time(H, M, S, us):
+    H, M, S, us = [_req_int(x, n) for x, n in ((H, 'hour'), (M, 'minute'), (S, 'second'), (us, 'microsecond'))]
+    _check(z3.And(_I(H) >= 0, _I(H) <= 23), ValueError('hour must be in 0..23'))
+    _check(z3.And(_I(M) >= 0, _I(M) <= 59), ValueError('minute must be in 0..59'))
+    _check(z3.And(_I(S) >= 0, _I(S) <= 59), ValueError('second must be in 0..59'))
+    _check(z3.And(_I(us) >= 0, _I(us) <= 999999), ValueError('microsecond must be in 0..999999'))
+    return H, M, S, us
+
+
+def _mi(model, x):
+    return model_int(model, x.z) if isinstance(x, SInt) else x
+
+
+class SFixedOffset(Sym):
+    """pytz.FixedOffset(minutes) with symbolic minutes (|minutes| < 1440 checked at construction)"""
+    _pytype = _dt.tzinfo
+
+    def __init__(self, minutes):
+        self.minutes = minutes
+
+    def utcoffset_minutes(self):
+        return self.minutes
+
+    def __sx_eval__(self, model):
+        return 'FixedOffset(%d)' % _mi(model, self.minutes)
+
+    def __hash__(self):
+        raise Unsupported('hash of symbolic tzinfo')
+
+
+def tz_minutes(tz, naive_fields=None):
+    """utc offset in minutes of a tzinfo usable by the model (fixed offsets only)"""
+    if tz is None:
+        return None
+    if isinstance(tz, SFixedOffset):
+        return tz.minutes
+    try:
+        import pytz
+        if tz is pytz.utc or tz is _dt.timezone.utc:
+            return 0
+        if isinstance(tz, pytz._FixedOffset):
+            return int(tz._minutes)
+    except ImportError:
+        pass
+    if isinstance(tz, _dt.timezone):
+        s = tz.utcoffset(None).total_seconds()
+        if s % 60:
+            raise Unsupported('sub-minute utc offset')
+        return int(s // 60)
+    raise Unsupported('tzinfo %r is not a fixed offset' % (tz,))
+
+
+def _offset_text(mins):
+    """'+HH:MM' for an offset in minutes (|mins| < 1440)"""
+    if isinstance(mins, SInt):
+        neg = E.branch(mins.z < 0)
+        a = SInt(-mins.z) if neg else mins
+        return CStr.of('-' if neg else '+') + _pad(a // 60, 2) + ':' + _pad(a % 60, 2)
+    a = abs(mins)
+    return CStr.of('%s%02d:%02d' % ('-' if mins < 0 else '+', a // 60, a % 60))
+
+
+class SDate(Sym):
+    _pytype = _dt.date
+
+    def __init__(self, y, m, d, _checked=False):
+        if not _checked:
+            y, m, d = _valid_date(y, m, d)
+        self.year, self.month, self.day = y, m, d
+
+    def isoformat(self):
+        return _pad(self.year, 4) + '-' + _pad(self.month, 2) + '-' + _pad(self.day, 2)
+
+    __sx_str__ = isoformat
+
+    def _key(self):
+        return _I(self.year) * 10000 + _I(self.month) * 100 + _I(self.day)
+
+    def _cmp(self, o, op):
+        if isinstance(o, SDateTime) or (isinstance(o, _dt.datetime)):
+            raise TypeError("can't compare datetime.datetime to datetime.date")
+        if isinstance(o, _dt.date):
+            o = SDate(o.year, o.month, o.day, True)
+        if not isinstance(o, SDate):
+            return NotImplemented
+        return SBool(op(self._key(), o._key()))
+
+    def __lt__(s, o): return s._cmp(o, lambda a, b: a < b)
+    def __le__(s, o): return s._cmp(o, lambda a, b: a <= b)
+    def __gt__(s, o): return s._cmp(o, lambda a, b: a > b)
+    def __ge__(s, o): return s._cmp(o, lambda a, b: a >= b)
+
+    def __eq__(s, o):
+        r = s._cmp(o, lambda a, b: a == b) if not isinstance(o, (SDateTime, _dt.datetime)) else False
+        return False if r is NotImplemented else r
+
+    def __ne__(s, o):
+        r = s.__eq__(o)
+        return SBool(z3.Not(r.z)) if isinstance(r, SBool) else not r
+
+    def __sx_eq__(s, o):
+        return s.__eq__(o)
+
+    def __hash__(self):
+        raise Unsupported('hash of symbolic date')
+
+    def toordinal(self):
+        return SInt(_ymd2ord(_I(self.year), _I(self.month), _I(self.day)))
+
+    def strftime(self, fmt):
+        raise Unsupported('strftime on symbolic date')
+
+    def timetuple(self):
+        raise Unsupported('timetuple on symbolic date')
+
+    def __sx_eval__(self, model):
+        return 'date(%d,%d,%d)' % (_mi(model, self.year), _mi(model, self.month), _mi(model, self.day))
+
+    def __repr__(self):
+        return 'SDate(%r,%r,%r)' % (self.year, self.month, self.day)
+
+
+class STime(Sym):
+    _pytype = _dt.time
+
+    def __init__(self, H=0, M=0, S=0, us=0, tzinfo=None, _checked=False):
+        if not _checked:
+            H, M, S, us = _valid_time(H, M, S, us)
+        self.hour, self.minute, self.second, self.microsecond = H, M, S, us
+        self.tzinfo = tzinfo
+
+    def isoformat(self):
+        r = _pad(self.hour, 2) + ':' + _pad(self.minute, 2) + ':' + _pad(self.second, 2)
+        us = self.microsecond
+        if (us != 0) if not isinstance(us, SInt) else E.branch(us.z != 0):
+            r = r + '.' + _pad(us, 6)
+        m = tz_minutes(self.tzinfo)
+        if m is not None:
+            r = r + _offset_text(m)
+        return r
+
+    __sx_str__ = isoformat
+
+    def _key(self):
+        return ((_I(self.hour) * 60 + _I(self.minute)) * 60 + _I(self.second)) * 1000000 + _I(self.microsecond)
+
+    def _cmp(self, o, op, eq=False):
+        if isinstance(o, _dt.time):
+            o = STime(o.hour, o.minute, o.second, o.microsecond, o.tzinfo, True)
+        if not isinstance(o, STime):
+            return NotImplemented
+        ma, mb = tz_minutes(self.tzinfo), tz_minutes(o.tzinfo)
+        if (ma is None) != (mb is None):
+            if eq:
+                return False
+            raise TypeError("can't compare offset-naive and offset-aware times")
+        ka, kb = self._key(), o._key()
+        if ma is not None:
+            ka = ka - _I(ma) * 60000000
+            kb = kb - _I(mb) * 60000000
+        return SBool(op(ka, kb))
+
+    def __lt__(s, o): return s._cmp(o, lambda a, b: a < b)
+    def __le__(s, o): return s._cmp(o, lambda a, b: a <= b)
+    def __gt__(s, o): return s._cmp(o, lambda a, b: a > b)
+    def __ge__(s, o): return s._cmp(o, lambda a, b: a >= b)
+
+    def __eq__(s, o):
+        r = s._cmp(o, lambda a, b: a == b, True)
+        return False if r is NotImplemented else r
+
+    def __ne__(s, o):
+        r = s.__eq__(o)
+        return SBool(z3.Not(r.z)) if isinstance(r, SBool) else not r
+
+    def __sx_eq__(s, o):
+        return s.__eq__(o)
+
+    def __hash__(self):
+        raise Unsupported('hash of symbolic time')
+
+    def replace(self, **kw):
+        a = dict(H=self.hour, M=self.minute, S=self.second, us=self.microsecond, tzinfo=self.tzinfo)
+        names = {'hour': 'H', 'minute': 'M', 'second': 'S', 'microsecond': 'us', 'tzinfo': 'tzinfo'}
+        for k, v in kw.items():
+            a[names[k]] = v
+        return STime(**a)
+
+    def strftime(self, fmt):
+        raise Unsupported('strftime on symbolic time')
+
+    def __sx_eval__(self, model):
+        return 'time(%d,%d,%d,%d)' % tuple(_mi(model, x) for x in
+                                           (self.hour, self.minute, self.second, self.microsecond))
+
+
+class SDateTime(Sym):
+    _pytype = _dt.datetime
+
+    def __init__(self, y, m, d, H=0, M=0, S=0, us=0, tzinfo=None, _checked=False):
+        if not _checked:
+            y, m, d = _valid_date(y, m, d)
+            H, M, S, us = _valid_time(H, M, S, us)
+            if tzinfo is not None and not isinstance(tzinfo, (_dt.tzinfo, SFixedOffset)):
+                raise TypeError('tzinfo argument must be None or of a tzinfo subclass')
+        self.year, self.month, self.day = y, m, d
+        self.hour, self.minute, self.second, self.microsecond = H, M, S, us
+        self.tzinfo = tzinfo
+
+    def date(self):
+        return SDate(self.year, self.month, self.day, True)
+
+    def time(self):
+        return STime(self.hour, self.minute, self.second, self.microsecond, None, True)
+
+    def timetz(self):
+        return STime(self.hour, self.minute, self.second, self.microsecond, self.tzinfo, True)
+
+    def utcoffset_minutes(self):
+        return tz_minutes(self.tzinfo)
+
+    def isoformat(self, sep='T'):
+        r = _pad(self.year, 4) + '-' + _pad(self.month, 2) + '-' + _pad(self.day, 2) + sep + \
+            _pad(self.hour, 2) + ':' + _pad(self.minute, 2) + ':' + _pad(self.second, 2)
+        us = self.microsecond
+        if (us != 0) if not isinstance(us, SInt) else E.branch(us.z != 0):
+            r = r + '.' + _pad(us, 6)
+        m = tz_minutes(self.tzinfo)
+        if m is not None:
+            r = r + _offset_text(m)
+        return r
+
+    __sx_str__ = isoformat
+
+    def replace(self, **kw):
+        a = dict(y=self.year, m=self.month, d=self.day, H=self.hour, M=self.minute, S=self.second,
+                 us=self.microsecond, tzinfo=self.tzinfo)
+        names = {'year': 'y', 'month': 'm', 'day': 'd', 'hour': 'H', 'minute': 'M', 'second': 'S',
+                 'microsecond': 'us', 'tzinfo': 'tzinfo'}
+        only_tz = set(kw) <= {'tzinfo'}
+        for k, v in kw.items():
+            a[names[k]] = v
+        return SDateTime(_checked=only_tz, **a)
+
+    def _minute_of_era(self):
+        """minutes since 0001-01-01T00:00 of the local fields"""
+        return (_ymd2ord(_I(self.year), _I(self.month), _I(self.day)) * 24 + _I(self.hour)) * 60 + _I(self.minute)
+
+    def astimezone(self, tz=None):
+        if tz is None:
+            raise Unsupported('astimezone() to the system zone')
+        m0 = tz_minutes(self.tzinfo)
+        if m0 is None:
+            raise Unsupported('astimezone() on a naive datetime (uses the system zone)')
+        m1 = tz_minutes(tz)
+        # a fixed-offset shift moves the local date by at most one day either way
+        tm = z3.simplify(_I(self.hour) * 60 + _I(self.minute) - _I(m0) + _I(m1))
+        y, mo, d = _I(self.year), _I(self.month), _I(self.day)
+        if E.branch(tm < 0):
+            tm = tm + 1440
+            if E.branch(tm < 0):
+                raise Unsupported('utc offset shift of more than a day')
+            if E.branch(d > 1):
+                d = d - 1
+            elif E.branch(mo > 1):
+                mo = mo - 1
+                d = _days_in_month(y, mo)
+            else:
+                if not E.branch(y > 1):
+                    raise OverflowError('date value out of range')
+                y, mo, d = y - 1, z3.IntVal(12), z3.IntVal(31)
+        elif E.branch(tm >= 1440):
+            tm = tm - 1440
+            if E.branch(tm >= 1440):
+                raise Unsupported('utc offset shift of more than a day')
+            if E.branch(d < _days_in_month(y, mo)):
+                d = d + 1
+            elif E.branch(mo < 12):
+                mo, d = mo + 1, z3.IntVal(1)
+            else:
+                if not E.branch(y < 9999):
+                    raise OverflowError('date value out of range')
+                y, mo, d = y + 1, z3.IntVal(1), z3.IntVal(1)
+        S = lambda t: SInt(z3.simplify(t))
+        return SDateTime(S(y), S(mo), S(d), S(tm / 60), S(tm % 60), self.second, self.microsecond,
+                         tz, _checked=True)
+
+    def _key(self):
+        k = ((_I(self.year) * 13 + _I(self.month)) * 32 + _I(self.day)) * 24 + _I(self.hour)
+        return ((k * 60 + _I(self.minute)) * 60 + _I(self.second)) * 1000000 + _I(self.microsecond)
+
+    def _cmp(self, o, op, eq=False):
+        if isinstance(o, _dt.datetime):
+            o = SDateTime(o.year, o.month, o.day, o.hour, o.minute, o.second, o.microsecond, o.tzinfo, True)
+        if not isinstance(o, SDateTime):
+            if isinstance(o, (_dt.date, SDate)) and not eq:
+                raise TypeError("can't compare datetime.datetime to datetime.date")
+            return NotImplemented
+        ma, mb = tz_minutes(self.tzinfo), tz_minutes(o.tzinfo)
+        if (ma is None) != (mb is None):
+            if eq:
+                return False
+            raise TypeError("can't compare offset-naive and offset-aware datetimes")
+        a = self
+        if ma is not None:
+            same = (ma is mb) or (not isinstance(ma, SInt) and not isinstance(mb, SInt) and ma == mb)
+            if not same:
+                # compare in o's zone: a fixed-offset shift is a bounded day roll-over (no era arithmetic)
+                try:
+                    a = self.astimezone(o.tzinfo if o.tzinfo is not None else None)
+                except OverflowError:
+                    raise Unsupported('comparison needs a zone shift beyond year 1..9999')
+        return SBool(op(a._key(), o._key()))
+
+    def __lt__(s, o): return s._cmp(o, lambda a, b: a < b)
+    def __le__(s, o): return s._cmp(o, lambda a, b: a <= b)
+    def __gt__(s, o): return s._cmp(o, lambda a, b: a > b)
+    def __ge__(s, o): return s._cmp(o, lambda a, b: a >= b)
+
+    def __eq__(s, o):
+        r = s._cmp(o, lambda a, b: a == b, True)
+        return False if r is NotImplemented else r
+
+    def __ne__(s, o):
+        r = s.__eq__(o)
+        return SBool(z3.Not(r.z)) if isinstance(r, SBool) else not r
+
+    def __sx_eq__(s, o):
+        return s.__eq__(o)
+
+    def __hash__(self):
+        raise Unsupported('hash of symbolic datetime')
+
+    def strftime(self, fmt):
+        raise Unsupported('strftime on symbolic datetime')
+
+    def timetuple(self):
+        raise Unsupported('timetuple on symbolic datetime')
+
+    def __sx_eval__(self, model):
+        m = tz_minutes(self.tzinfo)
+        return 'datetime(%d,%d,%d,%d,%d,%d,%d,tz=%s)' % (tuple(_mi(model, x) for x in (
+            self.year, self.month, self.day, self.hour, self.minute, self.second, self.microsecond))
+            + (None if m is None else _mi(model, m) if isinstance(m, SInt) else m,))
+
+
+class STotalSeconds(Sym):
+    """timedelta.total_seconds(): exact when microseconds == 0, else within 1 of the whole seconds"""
+    _pytype = float
+
+    def __init__(self, whole, us):
+        self.whole, self.us = whole, us
+
+    def __sx_int__(self):
+        r = z3.Int(E.fresh_name('totsec'))
+        E.add(z3.If(_I(self.us) == 0, r == self.whole, z3.And(r >= self.whole - 1, r <= self.whole + 1)))
+        return SInt(r)
+
+
+_US_DAY = 86400 * 1000000
+
+
+class STimeDelta(Sym):
+    _pytype = _dt.timedelta
+
+    def __init__(self, days=0, seconds=0, microseconds=0, milliseconds=0, minutes=0, hours=0, weeks=0,
+                 _total=None, _norm=None):
+        if _total is None:
+            parts = []
+            for x, k in ((days, _US_DAY), (seconds, 1000000), (microseconds, 1), (milliseconds, 1000),
+                         (minutes, 60000000), (hours, 3600000000), (weeks, 7 * _US_DAY)):
+                if isinstance(x, SInt):
+                    parts.append(x.z * k)      # integral floats are exact here
+                elif isinstance(x, SBool):
+                    parts.append(z3.If(x.z, k, 0))
+                elif isinstance(x, bool) or isinstance(x, int):
+                    parts.append(z3.IntVal(int(x) * k))
+                elif isinstance(x, float):
+                    if not x.is_integer():
+                        raise Unsupported('fractional timedelta argument')
+                    parts.append(z3.IntVal(int(x) * k))
+                elif hasattr(x, '__sx_td_us__'):
+                    parts.append(x.__sx_td_us__(k))
+                else:
+                    raise TypeError('unsupported type for timedelta component: %s' % type(x).__name__)
+            _total = parts[0]
+            for p in parts[1:]:
+                _total = _total + p
+        self.total = z3.simplify(_total)       # total microseconds
+        self._norm = _norm
+        lim = 999999999
+        if not E.branch(z3.And(self.total >= -lim * _US_DAY, self.total < (lim + 1) * _US_DAY)):
+            raise OverflowError('days; must have magnitude <= 999999999')
+
+    def _fields(self):
+        if self._norm is None:
+            if z3.is_int_value(self.total):
+                t = self.total.as_long()
+                self._norm = (z3.IntVal(t // _US_DAY), z3.IntVal(t % _US_DAY // 1000000), z3.IntVal(t % 1000000))
+            else:
+                n = E.fresh_name('td')
+                d, sc, us = z3.Int(n + '_d'), z3.Int(n + '_s'), z3.Int(n + '_us')
+                E.add(self.total == (d * 86400 + sc) * 1000000 + us)
+                E.add(z3.And(sc >= 0, sc < 86400, us >= 0, us < 1000000))
+                E.declare_range(sc, 0, 86399)
+                E.declare_range(us, 0, 999999)
+                self._norm = (d, sc, us)
+        return self._norm
+
+    @property
+    def days(self):
+        return SInt(self._fields()[0])
+
+    @property
+    def seconds(self):
+        return SInt(self._fields()[1])
+
+    @property
+    def microseconds(self):
+        return SInt(self._fields()[2])
+
+    def total_seconds(self):
+        d, sc, us = self._fields()
+        return STotalSeconds(d * 86400 + sc + z3.If(z3.And(d < 0, us != 0), 1, 0), us)
+
+    def __neg__(self):
+        return STimeDelta(_total=-self.total)
+
+    def __mul__(self, k):
+        if isinstance(k, (int, SInt)) and not getattr(k, 'is_float', False) and not isinstance(k, bool):
+            return STimeDelta(_total=self.total * _I(k))
+        raise Unsupported('timedelta * %r' % (type(k),))
+    __rmul__ = __mul__
+
+    def __add__(self, o):
+        if isinstance(o, _dt.timedelta):
+            o = from_timedelta(o)
+        if isinstance(o, STimeDelta):
+            return STimeDelta(_total=self.total + o.total)
+        return NotImplemented
+    __radd__ = __add__
+
+    def _cmp(self, o, op):
+        if isinstance(o, _dt.timedelta):
+            o = from_timedelta(o)
+        if not isinstance(o, STimeDelta):
+            return NotImplemented
+        return SBool(op(self.total, o.total))
+
+    def __lt__(s, o): return s._cmp(o, lambda a, b: a < b)
+    def __le__(s, o): return s._cmp(o, lambda a, b: a <= b)
+    def __gt__(s, o): return s._cmp(o, lambda a, b: a > b)
+    def __ge__(s, o): return s._cmp(o, lambda a, b: a >= b)
+
+    def __eq__(s, o):
+        r = s._cmp(o, lambda a, b: a == b)
+        return False if r is NotImplemented else r
+
+    def __ne__(s, o):
+        r = s.__eq__(o)
+        return SBool(z3.Not(r.z)) if isinstance(r, SBool) else not r
+
+    def __sx_eq__(s, o):
+        return s.__eq__(o)
+
+    def __bool__(self):
+        return E.branch(self.total != 0)
+
+    def __hash__(self):
+        raise Unsupported('hash of symbolic timedelta')
+
+    def __sx_eval__(self, model):
+        return 'timedelta(us=%d)' % model_int(model, self.total)
+
+
+def from_timedelta(td):
+    return STimeDelta(_total=z3.IntVal((td.days * 86400 + td.seconds) * 1000000 + td.microseconds))
+
+
+# ------------------------------------------------------------------ float(text) kernels
+_U = 2.0 ** -53
+
+
+class SFrac(Sym):
+    """float(text) for text = digits[.digits]: the correctly rounded double of num / 10**k.
+    Integer conversions of expressions over it are decided by separate floating-point lemmas
+    (see fp.py); here only the exact rational and the shape of the expression are tracked."""
+    _pytype = float
+
+    def __init__(self, num, k, expr=('x',), intdigits=None):
+        self.num, self.k, self.expr = num, k, expr      # num: z3 Int >= 0, k: python int
+        self.intdigits = intdigits
+
+    def __mul__(self, o):
+        if isinstance(o, float) and o == 1e6 and self.expr in (('x',), ('frac',)):
+            return SFrac(self.num, self.k, self.expr + ('mul1e6',), self.intdigits)
+        raise Unsupported('float arithmetic %r * %r' % (self.expr, o))
+    __rmul__ = __mul__
+
+    def __sx_round__(self):
+        return SFrac(self.num, self.k, self.expr + ('round',), self.intdigits)
+
+    def __sx_modf__(self):
+        if self.expr != ('x',):
+            raise Unsupported('modf of float expression')
+        from . import fp
+        fp.require_modf_exact(self)
+        ip = SInt(self.num / (10 ** self.k), True)
+        return (SFrac(self.num, self.k, ('frac',), self.intdigits), ip)
+
+    def __sx_int__(self):
+        from . import fp
+        return fp.int_of(self)
+
+    def __sx_td_us__(self, k):
+        raise Unsupported('fractional float passed to timedelta')
+
+    def _cmp0(self, o, op):
+        if isinstance(o, (int, float)) and o == 0 and self.expr in (('x',), ('frac',)):
+            n = self.num if self.expr == ('x',) else self.num % (10 ** self.k)
+            return SBool(op(n, 0))
+        raise Unsupported('float comparison')
+
+    def __gt__(s, o): return s._cmp0(o, lambda a, b: a > b)
+    def __lt__(s, o): return s._cmp0(o, lambda a, b: a < b)
+    def __eq__(s, o): return s._cmp0(o, lambda a, b: a == b)
+    def __ne__(s, o): return s._cmp0(o, lambda a, b: a != b)
+
+    def __hash__(self):
+        raise Unsupported('hash of symbolic float')
+
+
+_FLOAT_MAYBE = set(b'eE+-_ \t\n\r\x0b\x0cinfatyINFATY')
+
+
 def parse_float(x):
-    raise Unsupported('float() of symbolic string')
+    """float(str) for the shapes digits[.digits] | .digits | digits.  (ASCII digits only)"""
+    c = list(x.c)
+    if not c:
+        raise ValueError('could not convert string to float: ''')
+    digs = []
+    k = None
+    for i, ch in enumerate(c):
+        if E.branch(z3.And(_cz(ch) >= 48, _cz(ch) <= 57)):
+            digs.append(ch)
+            continue
+        if k is None and E.branch(_cz(ch) == 46):
+            k = len(c) - 1 - i
+            continue
+        if z3.is_expr(ch):
+            if E.branch(z3.Or(_cz(ch) > 127, *[_cz(ch) == v for v in sorted(_FLOAT_MAYBE)])):
+                raise Unsupported('float() syntax beyond digits[.digits]')
+        elif ch > 127 or ch in _FLOAT_MAYBE:
+            raise Unsupported('float() syntax beyond digits[.digits]')
+        raise ValueError('could not convert string to float: <symbolic>')
+    if not digs:
+        raise ValueError('could not convert string to float: <no digits>')
+    if len(digs) > 15:
+        raise Unsupported('float() of more than 15 significant digits')
+    return SFrac(digits_val(digs), k or 0, intdigits=len(digs) - (k or 0))
+
+
+# ------------------------------------------------------------------ decimal.Decimal
+class SDecimal(Sym):
+    """finite decimal: sign (python bool or z3 Bool), coefficient digits (CStr without redundant
+    leading zeros, or '0'), exponent (python int)"""
+    _pytype = decimal.Decimal
+
+    def __init__(self, neg, digits, exp):
+        self.neg, self.digits, self.exp = neg, digits, exp
+
+    def _coef(self):
+        return digits_val(self.digits.c)
+
+    def __sx_str__(self):
+        neg = self.neg if isinstance(self.neg, bool) else E.branch(self.neg)
+        sign = '-' if neg else ''
+        _int = self.digits
+        n = len(_int.c)
+        leftdigits = self.exp + n
+        if self.exp <= 0 and leftdigits > -6:
+            dotplace = leftdigits
+        else:
+            dotplace = 1
+        if dotplace <= 0:
+            intpart = CStr.of('0')
+            fracpart = CStr.of('.' + '0' * (-dotplace)) + _int
+        elif dotplace >= n:
+            intpart = _int + '0' * (dotplace - n)
+            fracpart = CStr.of('')
+        else:
+            intpart = _int[:dotplace]
+            fracpart = CStr.of('.') + _int[dotplace:]
+        if leftdigits == dotplace:
+            exp = ''
+        else:
+            exp = 'E%+d' % (leftdigits - dotplace)
+        return CStr.of(sign) + intpart + fracpart + exp
+
+    def value_scaled(self, e):
+        """signed value * 10**(-e) as z3 Int (requires exp >= e)"""
+        v = self._coef() * (10 ** (self.exp - e))
+        if isinstance(self.neg, bool):
+            return -v if self.neg else v
+        return z3.If(self.neg, -v, v)
+
+    def _cmp(self, o, op):
+        if isinstance(o, SDecimal):
+            e = min(self.exp, o.exp)
+            return SBool(op(self.value_scaled(e), o.value_scaled(e)))
+        if isinstance(o, (int, SInt)) and not isinstance(o, bool):
+            e = min(self.exp, 0)
+            return SBool(op(self.value_scaled(e), _I(o) * 10 ** (-e)))
+        if isinstance(o, decimal.Decimal):
+            if o.is_nan():
+                return SBool(op is _NE)
+            if o.is_infinite():
+                pos = o > 0
+                return SBool({_LT: pos, _LE: pos, _GT: not pos, _GE: not pos, _EQ: False, _NE: True}[op])
+            sg, dg, ex = o.as_tuple()
+            return self._cmp(SDecimal(bool(sg), CStr.of(''.join(map(str, dg))), ex), op)
+        if isinstance(o, float):
+            if o == float('inf') or o == float('-inf'):
+                pos = o > 0
+                return SBool({_LT: pos, _LE: pos, _GT: not pos, _GE: not pos, _EQ: False, _NE: True}[op])
+            return self._cmp(decimal.Decimal(o), op)
+        return NotImplemented
+
+    def __lt__(s, o): return s._cmp(o, _LT)
+    def __le__(s, o): return s._cmp(o, _LE)
+    def __gt__(s, o): return s._cmp(o, _GT)
+    def __ge__(s, o): return s._cmp(o, _GE)
+
+    def __eq__(s, o):
+        r = s._cmp(o, _EQ)
+        return False if r is NotImplemented else r
+
+    def __ne__(s, o):
+        r = s._cmp(o, _NE)
+        return True if r is NotImplemented else r
+
+    def __sx_eq__(s, o):
+        return s.__eq__(o)
+
+    def __hash__(self):
+        raise Unsupported('hash of symbolic decimal')
+
+    def as_tuple(self):
+        raise Unsupported('Decimal.as_tuple on symbolic decimal')
+
+    def __sx_eval__(self, model):
+        neg = self.neg if isinstance(self.neg, bool) else bool(model_int(model, self.neg))
+        return 'Decimal(%s%sE%d)' % ('-' if neg else '', self.digits.eval(model), self.exp)
+
+
+def _LT(a, b): return a < b
+def _LE(a, b): return a <= b
+def _GT(a, b): return a > b
+def _GE(a, b): return a >= b
+def _EQ(a, b): return a == b
+def _NE(a, b): return a != b
+
+
+_DEC_RE = re.compile(r"(?P<sign>[-+])?(?:(?P<int>\d*)(?:\.(?P<frac>\d*))?(?:E(?P<exp>[-+]?\d+))?)\Z",
+                     re.IGNORECASE)
+_DEC_SPECIAL = re.compile(r"[-+]?(?:Inf(?:inity)?|s?NaN\d*)\Z", re.IGNORECASE)
+
+
+def parse_decimal(x):
+    """decimal.Decimal(str) for finite numerals (default context: InvalidOperation is trapped)"""
+    s = x.strip().replace('_', '')
+    for ch in s.c:
+        if z3.is_expr(ch):
+            if E.branch(ch > 127):
+                raise Unsupported('Decimal() of non-ASCII symbolic char')
+        elif ch > 127:
+            raise Unsupported('Decimal() of non-ASCII char')
+    if re_match(_DEC_SPECIAL, s) is not None:
+        raise Unsupported('Decimal() of Inf/NaN')
+    m = re_match(_DEC_RE, s)
+    ok = m is not None
+    if ok:
+        ip = m.group('int')
+        fp_ = m.group('frac')
+        ok = len(ip.c) > 0 or (fp_ is not None and len(fp_.c) > 0)
+    if not ok:
+        raise decimal.InvalidOperation([decimal.ConversionSyntax])
+    fp_ = fp_ if fp_ is not None else CStr.of('')
+    ex = m.group('exp')
+    e = 0
+    if ex is not None:
+        ev = parse_int(ex)
+        e = concretize(ev, -40, 40)
+    sign = m.group('sign')
+    neg = False
+    if sign is not None and len(sign.c):
+        neg = zbool(sign == '-')
+    digs = (ip + fp_).c
+    # str(int(...)): strip redundant leading zeros
+    while len(digs) > 1 and E.branch(_cz(digs[0]) == 48):
+        digs = digs[1:]
+    return SDecimal(neg, CStr(digs), e - len(fp_.c))
+
+
+# ------------------------------------------------------------------ strptime('%Y-%m-%d')
+_STRP_YMD = re.compile(r"(?P<Y>\d\d\d\d)-(?P<m>1[0-2]|0[1-9]|[1-9])-(?P<d>3[01]|[12]\d|0[1-9]|[1-9]| [1-9])")
+
+
+def strptime_ymd(s):
+    for ch in s.c:
+        if z3.is_expr(ch):
+            if E.branch(ch > 127):
+                raise Unsupported('strptime of non-ASCII symbolic char')
+    m = re_match(_STRP_YMD, s)
+    if m is None:
+        raise ValueError("time data <symbolic> does not match format '%Y-%m-%d'")
+    if m.end() != len(s.c):
+        raise ValueError('unconverted data remains')
+    y = parse_int(m.group('Y'))
+    mo = parse_int(m.group('m'))
+    dtext = m.group('d')
+    d = parse_int(dtext)
+    # _strptime builds datetime_date(year, month, day) to compute the weekday/julian day
+    _check(z3.And(_I(y) >= 1), ValueError('year 0 is out of range'))
+    _check(_I(d) <= _days_in_month(_I(y), _I(mo)), ValueError('day is out of range for month'))
+    return (y, mo, d, 0, 0, 0, SInt(z3.Int(E.fresh_name('wday'))), SInt(z3.Int(E.fresh_name('yday'))), -1)
+
+
+# ------------------------------------------------------------------ str.format
+_FIELD_RE = re.compile(r'\{(\d*)(?::([^{}]*))?\}')
 
 
 def str_format(fmt, args, kw):
     raise Unsupported('str.format with proxy')
+
+
+# ------------------------------------------------------------------ dispatch of constructors / functions
+@register
+def _ctor_models(f, slf, args, kw):
+    if f is _dt.datetime:
+        names = ['y', 'm', 'd', 'H', 'M', 'S', 'us', 'tzinfo']
+        kmap = {'year': 'y', 'month': 'm', 'day': 'd', 'hour': 'H', 'minute': 'M', 'second': 'S',
+                'microsecond': 'us', 'tzinfo': 'tzinfo'}
+        a = dict(zip(names, args))
+        for k, v in kw.items():
+            a[kmap[k]] = v
+        return SDateTime(**a)
+    if f is _dt.date:
+        return SDate(*args, **kw)
+    if f is _dt.time:
+        names = ['H', 'M', 'S', 'us', 'tzinfo']
+        kmap = {'hour': 'H', 'minute': 'M', 'second': 'S', 'microsecond': 'us', 'tzinfo': 'tzinfo'}
+        a = dict(zip(names, args))
+        for k, v in kw.items():
+            a[kmap[k]] = v
+        return STime(**a)
+    if f is _dt.timedelta:
+        names = ['days', 'seconds', 'microseconds', 'milliseconds', 'minutes', 'hours', 'weeks']
+        a = dict(zip(names, args))
+        a.update(kw)
+        return STimeDelta(**a)
+    if f is decimal.Decimal:
+        x = args[0]
+        if isinstance(x, SDecimal):
+            return x
+        if isinstance(x, CStr):
+            if x.is_bytes:
+                raise TypeError('conversion from bytes to Decimal is not supported')
+            return parse_decimal(x)
+        if isinstance(x, SInt) and not x.is_float:
+            r = render_int(x)
+            neg = bool(r.c and r.c[0] == 45)
+            return SDecimal(neg, CStr(r.c[1:] if neg else r.c), 0)
+        if isinstance(x, SBool):
+            raise Unsupported('Decimal(bool)')
+        raise Unsupported('Decimal(%r)' % (type(x),))
+    if f is _time.strptime:
+        if isinstance(args[0], CStr) and len(args) == 2 and args[1] == '%Y-%m-%d':
+            return strptime_ymd(args[0])
+        raise Unsupported('strptime with format %r' % (args[1:],))
+    try:
+        import pytz
+        if f is pytz.FixedOffset:
+            m = args[0]
+            if isinstance(m, SInt):
+                if not E.branch(z3.And(m.z > -1440, m.z < 1440)):
+                    raise ValueError('absolute offset is too large')
+                return SFixedOffset(m)
+    except ImportError:
+        pass
+    return NO_MODEL
